@@ -108,7 +108,7 @@ func (k msgServer) Store(goCtx context.Context, msg *types.MsgStore) (*types.Msg
 		proposal.Size_ = 1
 	}
 
-	if proposal.Timeout == 0 {
+	if proposal.Timeout <= 0 {
 		return nil, status.Errorf(codes.InvalidArgument, "invalid arguments: timeout")
 	}
 
